@@ -40,6 +40,8 @@ RULE = (
     "compared with the wire as well, and a PDU rebuilt from it must - where the library can e"
     "ncode it - carry the same content (bytes() of a decoded x690 object only replays the oct"
     "ets it came from)."
+    " A poller re-reads the same 30 objects eight times while their values change (same respo"
+    "nse length and layout, earlier datagrams collected)."
 )
 ASSUMPTIONS = [
     "well-formed = what vf.ber's strict decoder accepts (definite lengths, <= 4 length octets)",
